@@ -51,15 +51,19 @@ def _check(chunk):
                 continue
             if r != t:
                 fail("pass-through-changed-bytes")
+            # every kind of path (plain, dotted, scoped at depth 1 and 2, scoped + dotted): the refusal must not depend on it
+            paths = ("a", "@x", "a.b", "@@x", "@x.y") if i % 5 == 0 else (("a", "@x") if i % 2 else ("a", "@x.y"))
             for op in ("set", "rm"):
-                src2 = parse(t)
-                try:
-                    out = set_value(src2, "a", "1") if op == "set" else remove_value(src2, "a")
-                    fail(f"{op}-accepted-erroneous-source")
-                except (ValueError, KeyError):
-                    pass
-                except Exception as e:
-                    fail(f"{op}-raises:{type(e).__name__}")
+                for path in paths:
+                    src2 = parse(t)
+                    try:
+                        out = set_value(src2, path, "1") if op == "set" else remove_value(src2, path)
+                        fail(f"{op}-accepted-erroneous-source" + ("" if path == "a" else f":{path}"))
+                    except (ValueError, KeyError):
+                        if src2.rebuild() != t:
+                            fail(f"{op}-refused-but-changed-document:{path}")
+                    except Exception as e:
+                        fail(f"{op}-raises:{type(e).__name__}" + ("" if path == "a" else f":{path}"))
             if i % 25 == 0:
                 with open(tmp.name, "w", encoding="utf-8", newline="") as fh:
                     fh.write(t)
